@@ -185,6 +185,8 @@ class CapturedPath:
   def _find_edge_from_path_to_segment(self, path, oriented_segment):
     edges = []
     for edge in oriented_segment.line.edges:
+      if any(e.line is edge for e in edges):
+        continue # an edge from the segment to itself is listed at both ends
       if (edge.sid1 == oriented_segment and edge.sid2 == path[-1]) or \
          (edge.sid1 == path[-1] and edge.sid2 == oriented_segment):
         edges.append(gfapy.OrientedLine(edge, "+"))
